@@ -59,6 +59,8 @@ def configs(tier):
                 (minsize, 2, None), (allsize - 1, None, SPACING), (minsize, 1, SPACING), (None, 2, 5000), (allsize, 2, 5000),
                 (allsize, None, None), (minsize, 2, SPACING)]
         out = [c for c in out if c in keep]
+    # a zero duration is a legal limit ("keep only the newest time stamp of each channel and kind")
+    out += [(None, None, 0), (allsize, 2, 0)]
     return out
 
 
@@ -494,7 +496,7 @@ def main(tier):
               "events per file {created with/without the file appearing, deleted with/without the file disappearing, vanish "
               "without event, tmp->final move, move to a non-matching name, rename to another matching name, modified, grow+modified, silent grow} and batch "
               "{re-scan as after an observer restart, add_files sorted/unsorted, modify_files, remove_files}; limit configurations "
-              "size in {None, sum of largest per channel, all-1, all} x count in {None,1,2} x duration in {None, one spacing, all}. "
+              "size in {None, sum of largest per channel, all-1, all} x count in {None,1,2} x duration in {None, one spacing, all}, plus two configurations with the legal limit duration 0. "
               "Invariants are evaluated on every transition; os.remove/os.rmdir are intercepted with the tracked set at that "
               "moment. A state is (disk, records, queue order, active_size)."),
         assumptions=["equal canonical states have equal futures (the handler has no other mutable state; events are handled synchronously under one lock)",
